@@ -743,6 +743,24 @@ def session_lifecycle(ctx, rule='C13.session-lifecycle'):
         paths.run(mp, Ord(), False)
         R.check(not late, rule, 'bumble.smp.Manager.on_smp_pdu | old session ended before the new one is registered', 'no session is ended after self.sessions[handle] has been given the new session',
                 f'a session is ended (line {sorted(set(late))}) after the new session was stored in self.sessions: ending removes the entry by connection handle, i.e. the new session; the rest of the pairing finds no session and fails', p.loc(mp))
+    # the same ordering in every other Manager method that registers a session (pair(), request handling helpers)
+    mg = p.cls('bumble.smp.Manager')
+    if mg is not None:
+        for mname, mfn in sorted(mg.methods.items()):
+            if mname == 'on_smp_pdu' or not any(isinstance(x, ast.Assign) and isinstance(x.targets[0], ast.Subscript) and dotted(x.targets[0].value) == 'self.sessions' for x in walk_local(mfn)):
+                continue
+            late2 = []
+
+            class Ord2(paths.Domain):
+                def event(self, node, v):
+                    if isinstance(node, ast.Assign) and isinstance(node.targets[0], ast.Subscript) and dotted(node.targets[0].value) == 'self.sessions':
+                        return (True,)
+                    if isinstance(node, ast.Call) and (call_attr(node) in ('on_disconnection', 'on_session_end')) and v:
+                        late2.append(node.lineno)
+                    return (v,)
+            paths.run(mfn, Ord2(), False)
+            R.check(not late2, rule, f'bumble.smp.Manager.{mname} | old session ended before the new one is registered', 'no session is ended after self.sessions[handle] has been given the new session',
+                    f'a session is ended (line {sorted(set(late2))}) after the new session was stored in self.sessions: ending removes the entry by connection handle, i.e. the new session; the peer\'s answer finds no session and pair() never returns', p.loc(mfn))
     # a session that failed supplies no key: the long-term-key lookup falls through to the key store (the keys of an earlier
     # bonding stay valid after a failed re-pairing)
     gl = p.find(f'{S}.get_long_term_key')
